@@ -341,6 +341,13 @@ class Check:
                 ov[os.path.join(moddir, KIT_VPATH, os.path.basename(f))] = f
         for k, v in (extra_overlay or {}).items():
             ov[os.path.join(moddir, k)] = v
+        # mutation controls: VERIF_MUTATION=<unified diff against /repo> compiles the mutated source in
+        # through the overlay (the working tree is never touched)
+        mut = os.environ.get("VERIF_MUTATION")
+        if mut:
+            for rel, patched in apply_mutation(mut, d).items():
+                ov[os.path.join(REPO, rel)] = patched
+            self.notes.append("MUTATION CONTROL RUN: " + mut)
         ovp = os.path.join(d, "overlay.json")
         json.dump({"Replace": ov}, open(ovp, "w"), indent=1)
         cmd = ["go", "test", "-vet=off", "-tags", tags, "-overlay", ovp, "-run", run,
@@ -527,3 +534,32 @@ def slice_trace(recs, line, is_reset):
     while b < len(recs) and not is_reset(recs[b]):
         b += 1
     return a, b
+
+
+def apply_mutation(diff_path, scratch):
+    """Apply a unified diff (paths relative to /repo, -p1 style a/ b/ or plain) to copies of the files."""
+    txt = open(diff_path).read()
+    files = re.findall(r"(?m)^\+\+\+ (?:b/)?(\S+)", txt)
+    out = {}
+    md = os.path.join(scratch, "mutation")
+    os.makedirs(md, exist_ok=True)
+    for rel in files:
+        rel = rel.replace("/repo/", "")
+        src = os.path.join(REPO, rel)
+        dst = os.path.join(md, rel.replace("/", "__"))
+        shutil.copy(src, dst)
+        out[rel] = dst
+    # apply hunks file by file
+    parts = re.split(r"(?m)^(?=--- )", txt)
+    for part in parts:
+        m = re.search(r"(?m)^\+\+\+ (?:b/)?(\S+)", part)
+        if not m:
+            continue
+        rel = m.group(1).replace("/repo/", "")
+        dst = out[rel]
+        pf = dst + ".diff"
+        open(pf, "w").write(part)
+        rc, o, _ = sh(["patch", "-s", "-F", "3", dst, pf])
+        if rc != 0:
+            raise Inconclusive("mutation %s does not apply to %s: %s" % (diff_path, rel, o))
+    return out
